@@ -1,0 +1,333 @@
+//go:build verif
+
+// SPDX-License-Identifier: Apache-2.0
+
+// Verification hooks: thin exported wrappers around unexported leaf functions so that an
+// external harness can drive them. Compiled only with `-tags verif`; no existing code is changed.
+
+package pfcpiface
+
+import (
+	"math/rand"
+	"net"
+	"net/http"
+	"time"
+
+	"github.com/omec-project/upf-epc/pfcpiface/metrics"
+	"github.com/wmnsk/go-pfcp/ie"
+)
+
+type verifNopMetrics struct{}
+
+func (verifNopMetrics) SaveMessages(*metrics.Message) {}
+func (verifNopMetrics) SaveSessions(*metrics.Session) {}
+func (verifNopMetrics) Stop() error                   { return nil }
+
+// ---- port ranges (parse_pdr.go) ----
+
+type VerifRule struct{ Port, Mask uint16 }
+
+type VerifRule2 struct{ SrcPort, SrcMask, DstPort, DstMask uint16 }
+
+func VerifPortPreds(low, high uint16) (wild, exact, rng bool, width uint16) {
+	pr := portRange{low: low, high: high}
+	return pr.isWildcardMatch(), pr.isExactMatch(), pr.isRangeMatch(), pr.Width()
+}
+
+func VerifNewRange(low, high uint16) (uint16, uint16) {
+	pr := newRangeMatchPortRange(low, high)
+	return pr.low, pr.high
+}
+
+func VerifTrivial(low, high uint16) (VerifRule, error) {
+	r, err := portRange{low: low, high: high}.asTrivialTernaryMatch()
+	return VerifRule{r.port, r.mask}, err
+}
+
+func VerifComplex(low, high uint16, strategy int) ([]VerifRule, error) {
+	rs, err := portRange{low: low, high: high}.asComplexTernaryMatches(RangeConversionStrategy(strategy))
+	if err != nil {
+		return nil, err
+	}
+
+	out := make([]VerifRule, 0, len(rs))
+	for _, r := range rs {
+		out = append(out, VerifRule{r.port, r.mask})
+	}
+
+	return out, nil
+}
+
+func VerifProduct(sl, sh, dl, dh uint16) ([]VerifRule2, error) {
+	rs, err := CreatePortRangeCartesianProduct(portRange{sl, sh}, portRange{dl, dh})
+	if err != nil {
+		return nil, err
+	}
+
+	out := make([]VerifRule2, 0, len(rs))
+	for _, r := range rs {
+		out = append(out, VerifRule2{r.srcPort, r.srcMask, r.dstPort, r.dstMask})
+	}
+
+	return out, nil
+}
+
+// ---- flow descriptions (parse_sdf.go, parse_pdr.go) ----
+
+type VerifEndpoint struct {
+	HasNet    bool
+	IP, Mask  uint32
+	Low, High uint16
+}
+
+type VerifFlow struct {
+	Action, Direction string
+	Proto             uint8
+	Src, Dst          VerifEndpoint
+}
+
+func verifEndpoint(e endpoint) VerifEndpoint {
+	v := VerifEndpoint{Low: e.ports.low, High: e.ports.high}
+	if e.IPNet != nil {
+		v.HasNet = true
+		v.IP = ip2int(e.IPNet.IP)
+		v.Mask = ipMask2int(e.IPNet.Mask)
+	}
+
+	return v
+}
+
+func VerifParseFlowDesc(flowDesc, ueIP string) (*VerifFlow, error) {
+	ipf, err := parseFlowDesc(flowDesc, ueIP)
+	if err != nil {
+		return nil, err
+	}
+
+	return &VerifFlow{
+		Action: ipf.action, Direction: ipf.direction, Proto: ipf.proto,
+		Src: verifEndpoint(ipf.src), Dst: verifEndpoint(ipf.dst),
+	}, nil
+}
+
+func VerifParsePort(s string) (uint16, uint16, error) {
+	var ep endpoint
+	err := ep.parsePort(s)
+
+	return ep.ports.low, ep.ports.high, err
+}
+
+type VerifAppFilter struct {
+	SrcIP, DstIP, SrcIPMask, DstIPMask uint32
+	SrcLow, SrcHigh, DstLow, DstHigh   uint16
+	Proto, ProtoMask                   uint8
+}
+
+type VerifPDR struct {
+	SrcIface, SrcIfaceMask         uint8
+	TunnelIP4Dst, TunnelIP4DstMask uint32
+	TunnelTEID, TunnelTEIDMask     uint32
+	UEAddress                      uint32
+	Filter                         VerifAppFilter
+	Precedence, PdrID, FarID       uint32
+	QerIDs                         []uint32
+	NeedDecap                      uint8
+	AllocIP, ChooseTEID            bool
+}
+
+func verifPDR(p *pdr) VerifPDR {
+	af := p.appFilter
+
+	return VerifPDR{
+		SrcIface: p.srcIface, SrcIfaceMask: p.srcIfaceMask,
+		TunnelIP4Dst: p.tunnelIP4Dst, TunnelIP4DstMask: p.tunnelIP4DstMask,
+		TunnelTEID: p.tunnelTEID, TunnelTEIDMask: p.tunnelTEIDMask, UEAddress: p.ueAddress,
+		Filter: VerifAppFilter{
+			SrcIP: af.srcIP, DstIP: af.dstIP, SrcIPMask: af.srcIPMask, DstIPMask: af.dstIPMask,
+			SrcLow: af.srcPortRange.low, SrcHigh: af.srcPortRange.high,
+			DstLow: af.dstPortRange.low, DstHigh: af.dstPortRange.high,
+			Proto: af.proto, ProtoMask: af.protoMask,
+		},
+		Precedence: p.precedence, PdrID: p.pdrID, FarID: p.farID,
+		QerIDs: append([]uint32{}, p.qerIDList...), NeedDecap: p.needDecap,
+		AllocIP: p.allocIPFlag, ChooseTEID: p.UPAllocateFteid,
+	}
+}
+
+// VerifParsePDR runs parsePDR on a Create/Update PDR IE with the given application table.
+func VerifParsePDR(pdrIE *ie.IE, seid uint64, apps map[string][]string, pool *IPPool) (VerifPDR, error) {
+	appPFDs := make(map[string]appPFD)
+	for id, fds := range apps {
+		appPFDs[id] = appPFD{appID: id, flowDescs: fds}
+	}
+
+	var p pdr
+	err := p.parsePDR(pdrIE, seid, appPFDs, pool)
+
+	return verifPDR(&p), err
+}
+
+// ---- QoS (utils.go, session_qer.go) ----
+
+func VerifCalcBurst(kbps, ms uint64) uint64 { return calcBurstSizeFromRate(kbps, ms) }
+
+type VerifQER struct {
+	ID           uint32
+	Session      bool
+	UlMbr, DlMbr uint64
+	UlGbr, DlGbr uint64
+}
+
+// VerifMarkSessionQer runs MarkSessionQer on a session whose PDRs carry the given QER ID lists.
+// It returns the QERs (with their level) and the PDR lists after the call.
+func VerifMarkSessionQer(pdrLists [][]uint32, qers []VerifQER) ([]VerifQER, [][]uint32) {
+	s := PFCPSession{}
+	for i, l := range pdrLists {
+		s.pdrs = append(s.pdrs, pdr{pdrID: uint32(i + 1), qerIDList: append([]uint32{}, l...)})
+	}
+
+	qs := make([]qer, 0, len(qers))
+	for _, q := range qers {
+		lvl := ApplicationQos
+		if q.Session {
+			lvl = SessionQos
+		}
+
+		qs = append(qs, qer{qerID: q.ID, qosLevel: lvl, ulMbr: q.UlMbr, dlMbr: q.DlMbr, ulGbr: q.UlGbr, dlGbr: q.DlGbr})
+	}
+
+	s.qers = qs
+	s.MarkSessionQer(qs)
+
+	out := make([]VerifQER, 0, len(qs))
+	for _, q := range qs {
+		out = append(out, VerifQER{ID: q.qerID, Session: q.qosLevel == SessionQos, UlMbr: q.ulMbr, DlMbr: q.dlMbr, UlGbr: q.ulGbr, DlGbr: q.dlGbr})
+	}
+
+	lists := make([][]uint32, 0, len(s.pdrs))
+	for _, p := range s.pdrs {
+		lists = append(lists, append([]uint32{}, p.qerIDList...))
+	}
+
+	return out, lists
+}
+
+// ---- REST (web_service.go) ----
+
+func VerifCalculateBitRates(mbr uint64, unit string) uint64 { return calculateBitRates(mbr, unit) }
+
+// VerifConfigHandler returns the slice-configuration handler bound to a running agent.
+func (p *PFCPIface) VerifConfigHandler() http.Handler { return &ConfigHandler{upf: p.upf} }
+
+// ---- configuration (config.go) ----
+
+func VerifRemoveComments(s string) string { return removeComments(s) }
+
+// ---- TEID / SEID allocation (fteid.go, sessions.go) ----
+
+func (g *FTEIDGenerator) VerifSetState(offset uint32, used []uint32) {
+	g.lock.Lock()
+	defer g.lock.Unlock()
+
+	g.offset = offset
+	g.usedMap = make(map[uint32]bool)
+
+	for _, u := range used {
+		g.usedMap[u] = true
+	}
+}
+
+func (g *FTEIDGenerator) VerifOffset() uint32 {
+	g.lock.Lock()
+	defer g.lock.Unlock()
+
+	return g.offset
+}
+
+type verifSource struct {
+	vals []uint64
+	i    int
+}
+
+func (s *verifSource) Uint64() uint64 {
+	v := s.vals[s.i%len(s.vals)]
+	s.i++
+
+	return v
+}
+func (s *verifSource) Int63() int64 { return int64(s.Uint64() >> 1) }
+func (s *verifSource) Seed(int64)   {}
+
+// VerifNewSEIDs creates a bare association whose random source replays `draws` cyclically and
+// whose store already holds `live`; it then asks for n new sessions (each stored when granted).
+func VerifNewSEIDs(draws []uint64, live []uint64, n int) (seids []uint64, ok []bool, consumed int) {
+	src := &verifSource{vals: draws}
+	pConn := &PFCPConn{
+		rng:        rand.New(src), // #nosec G404
+		maxRetries: 100,
+		store:      NewInMemoryStore(),
+		upf:        &upf{},
+	}
+	pConn.InstrumentPFCP = verifNopMetrics{}
+
+	for _, l := range live {
+		_ = pConn.store.PutSession(PFCPSession{localSEID: l})
+	}
+
+	for i := 0; i < n; i++ {
+		s, granted := pConn.NewPFCPSession(uint64(i))
+		seids = append(seids, s.localSEID)
+		ok = append(ok, granted)
+
+		if granted {
+			_ = pConn.store.PutSession(s)
+		}
+	}
+
+	return seids, ok, src.i
+}
+
+// ---- downlink data notifier (notifier.go) ----
+
+type VerifNotifier struct {
+	n  *downlinkDataNotifier
+	ch chan uint64
+}
+
+func VerifNewNotifier(interval time.Duration) *VerifNotifier {
+	ch := make(chan uint64, 1)
+	return &VerifNotifier{n: NewDownlinkDataNotifier(ch, interval), ch: ch}
+}
+
+// Notify reports whether a notification for fseid was forwarded.
+func (v *VerifNotifier) Notify(fseid uint64) bool {
+	v.n.Notify(fseid)
+	select {
+	case <-v.ch:
+		return true
+	default:
+		return false
+	}
+}
+
+// ---- misc leaf functions ----
+
+func VerifNeedAllocIP(flags uint8) bool {
+	return needAllocIP(&ie.UEIPAddressFields{Flags: flags})
+}
+
+func VerifFeatures(ueip, endMarker bool) []uint8 {
+	features := make([]uint8, 4)
+	if ueip {
+		setUeipFeature(features...)
+	}
+
+	setFTUPFeature(features...)
+
+	if endMarker {
+		setEndMarkerFeature(features...)
+	}
+
+	return features
+}
+
+func VerifIP2Int(ip net.IP) uint32 { return ip2int(ip) }
